@@ -73,6 +73,13 @@ class TakeWhileIter:
         self.it, self.clos, self.done = it, clos, False
 
 
+class FilterIter:
+    __slots__ = ("it", "clos")
+
+    def __init__(self, it, clos):
+        self.it, self.clos = it, clos
+
+
 class TakeN:
     __slots__ = ("it", "n")
 
@@ -213,6 +220,13 @@ def iter_next(I, it, depth):
         if rb.vi == 0:
             return rb
         return some([ra.fields[0], rb.fields[0]])
+    if isinstance(it, FilterIter):
+        while True:
+            r = iter_next(I, it.it, depth)
+            if r.vi == 0:
+                return r
+            if call_closure(I, it.clos, [tmp_ref(r.fields[0])], depth):
+                return r
     if isinstance(it, TakeWhileIter):
         if it.done:
             return NONE()
@@ -443,6 +457,8 @@ def call(I, fr, name, fname, k, args, depth):
         return EnumIter(args[0])
     if name.endswith("Iterator::take_while"):
         return TakeWhileIter(args[0], args[1])
+    if name.endswith("Iterator::filter"):
+        return FilterIter(args[0], args[1])
     if name.endswith("Iterator::count") or name.endswith("Iterator>::count"):
         n = 0
         while iter_next(I, args[0], depth).vi == 1:
@@ -556,6 +572,72 @@ def call(I, fr, name, fname, k, args, depth):
         if o.vi == 0:
             return args[1]
         return call_closure(I, args[2], [o.fields[0]], depth)
+    if name.endswith("cell::Cell::<T>::new"):
+        return Adt("core::cell::Cell", 0, "Cell", [args[0]])
+    if name.endswith("cell::Cell::<T>::get"):
+        import copy
+
+        return copy.deepcopy(deref(I, args[0]).fields[0])
+    if name.endswith("cell::Cell::<T>::set"):
+        deref(I, args[0]).fields[0] = args[1]
+        return []
+    if name.endswith("cell::Cell::<T>::replace"):
+        c = deref(I, args[0])
+        old_ = c.fields[0]
+        c.fields[0] = args[1]
+        return old_
+    if name.endswith("cell::OnceCell::<T>::new"):
+        return Adt("core::cell::OnceCell", 0, "OnceCell", [NONE()])
+    if name.endswith("cell::OnceCell::<T>::get_or_init"):
+        cell = deref(I, args[0])
+        if cell.fields[0].vi == 0:
+            cell.fields[0] = some(call_closure(I, args[1], [], depth))
+        r = args[0]
+        return Ref(r.frame, r.local, list(r.path) + [("f", 0), ("f", 0)])
+    if name.endswith("cell::OnceCell::<T>::get"):
+        cell = deref(I, args[0])
+        if cell.fields[0].vi == 0:
+            return NONE()
+        r = args[0]
+        return some(Ref(r.frame, r.local, list(r.path) + [("f", 0), ("f", 0)]))
+    # enum variant constructors used as functions (`.map(Cow::Owned)`, `.map(Some)`)
+    if name.endswith("borrow::Cow::Owned"):
+        return Adt("alloc::borrow::Cow", 1, "Owned", [args[0]])
+    if name.endswith("borrow::Cow::Borrowed"):
+        return Adt("alloc::borrow::Cow", 0, "Borrowed", [args[0]])
+    if name.endswith("option::Option::Some"):
+        return some(args[0])
+    if name.endswith("result::Result::Ok"):
+        return ok(args[0])
+    if name.endswith("result::Result::Err"):
+        return err(args[0])
+    if name.endswith("result::Result::<T, E>::map"):
+        o = args[0]
+        return ok(call_closure(I, args[1], [o.fields[0]], depth)) if o.vname == "Ok" else o
+    if name.endswith("result::Result::<T, E>::map_err"):
+        o = args[0]
+        return err(call_closure(I, args[1], [o.fields[0]], depth)) if o.vname == "Err" else o
+    if name.endswith("result::Result::<T, E>::ok"):
+        o = args[0]
+        return some(o.fields[0]) if o.vname == "Ok" else NONE()
+    if name.endswith("result::Result::<T, E>::is_ok"):
+        return 1 if args[0] is not None and deref(I, args[0]).vname == "Ok" else 0
+    if name.endswith("result::Result::<T, E>::is_err"):
+        return 1 if deref(I, args[0]).vname == "Err" else 0
+    if name.endswith("result::Result::<T, E>::and_then"):
+        o = args[0]
+        return call_closure(I, args[1], [o.fields[0]], depth) if o.vname == "Ok" else o
+    if name.endswith("result::Result::<T, E>::unwrap_or"):
+        o = args[0]
+        return o.fields[0] if o.vname == "Ok" else args[1]
+    if name.endswith("result::Result::<T, E>::unwrap_or_else"):
+        o = args[0]
+        return o.fields[0] if o.vname == "Ok" else call_closure(I, args[1], [o.fields[0]], depth)
+    if name.endswith("result::Result::<T, E>::unwrap") or name.endswith("result::Result::<T, E>::expect"):
+        o = args[0]
+        if o.vname != "Ok":
+            raise Panic("Result::unwrap on Err")
+        return o.fields[0]
     if name.endswith("option::Option::<T>::map"):
         o = args[0]
         if o.vi == 0:
@@ -1259,6 +1341,24 @@ def call(I, fr, name, fname, k, args, depth):
         a, b = deref_val(I, args[0]), deref_val(I, args[1])
         from .minimir import freeze
 
+        def strlike(v):
+            for _ in range(4):
+                if isinstance(v, Ref):
+                    v = deref(I, v)
+                elif isinstance(v, Adt) and v.path.endswith("borrow::Cow"):
+                    v = v.fields[0]
+                else:
+                    break
+            if isinstance(v, StrBuf):
+                return tuple(v.b)
+            if isinstance(v, Slice):
+                return tuple(v.heap[v.start:v.start + v.len])
+            return None
+
+        sa, sb = strlike(a), strlike(b)
+        if sa is not None and sb is not None:
+            r = sa == sb
+            return int(r if fname.endswith("::eq") else not r)
         r = freeze(a) == freeze(b)
         return int(r if fname.endswith("::eq") else not r)
     if "convert::From<bool>" in name or (fname.endswith("convert::From::from") and isinstance(args[0], int)):
